@@ -168,7 +168,10 @@ func (dist *TDistribution) Pdf(r Scalar, x ConstVector) error {
 /* -------------------------------------------------------------------------- */
 
 func (dist *TDistribution) GetParameters() Vector {
-  p := dist.Mu
+  // same layout as expected by SetParameters: nu, mu, sigma
+  p := NullDenseVector(dist.ScalarType(), 1)
+  p.At(0).Set(dist.Nu)
+  p  = p.AppendVector(dist.Mu)
   p  = p.AppendVector(dist.Sigma.AsVector())
   return p
 }
